@@ -2,6 +2,7 @@ package c10
 
 import (
 	"fmt"
+	"os"
 	"math"
 	"sort"
 	"strconv"
@@ -12,6 +13,7 @@ import (
 	"github.com/brimdata/super/order"
 	"github.com/brimdata/super/runtime/sam/expr"
 	"github.com/brimdata/super/runtime/sam/op/groupby"
+	"github.com/brimdata/super/zcode"
 	"github.com/brimdata/super/zson"
 	"pgregory.net/rapid"
 
@@ -307,7 +309,13 @@ func evalPerRow(zctx *zed.Context, rows []zed.Value, e string) ([]zed.Value, err
 		return nil, err
 	}
 	if len(out) != len(rows) {
+		if os.Getenv("C10_DEBUG") != "" {
+			fmt.Fprintf(os.Stderr, "DEBUG yield %s: %d rows -> %d outputs; rows=%v\n", e, len(rows), len(out), showVals(rows))
+		}
 		return nil, nil
+	}
+	if out == nil {
+		out = []zed.Value{}
 	}
 	return out, nil
 }
@@ -320,7 +328,7 @@ func buildModel(c GBCase, zctx *zed.Context, rows []zed.Value) (*gbModel, string
 			return nil, "", err
 		}
 		if vals == nil {
-			return nil, "key-expression-dropped-rows", nil
+			return nil, "key-expression-dropped-rows:" + k.Expr, nil
 		}
 		m.keyVals = append(m.keyVals, vals)
 	}
@@ -333,7 +341,7 @@ func buildModel(c GBCase, zctx *zed.Context, rows []zed.Value) (*gbModel, string
 				return nil, "", err
 			}
 			if vals == nil {
-				return nil, "arg-expression-dropped-rows", nil
+				return nil, "arg-expression-dropped-rows:" + a.Arg, nil
 			}
 		}
 		m.argVals = append(m.argVals, vals)
@@ -348,7 +356,7 @@ func buildModel(c GBCase, zctx *zed.Context, rows []zed.Value) (*gbModel, string
 				return nil, "", err
 			}
 			if w == nil {
-				return nil, "where-expression-dropped-rows", nil
+				return nil, "where-expression-dropped-rows:" + a.Where, nil
 			}
 			for i, v := range w {
 				ok[i] = zed.TypeUnder(v.Type()) == zed.TypeBool && !v.IsNull() && v.Bool()
@@ -507,7 +515,7 @@ func (m *gbModel) checkRun(run runInfo, out []zed.Value, base map[string]*outRow
 			total += len(m.rowsOfFine[f])
 		}
 		sum := 0
-		pattern := spillPossible && len(fines) > 1 && len(rows) >= 1 && len(rows) < len(fines)
+		pattern := spillPossible && len(fines) > 1 && len(rows) >= 1 && len(rows) <= len(fines) // (== : counts moved between the keys by a merge inside one partials stage)
 		for _, r := range rows {
 			sum += int(r.count)
 			if _, ok := m.rowsOfFine[r.fine]; !ok || seen[r.fine] > 1 {
@@ -946,6 +954,55 @@ func (m *gbModel) checkAgg(run runInfo, a int, idx []int, r *outRow, o *vt.Outco
 	return nil, false
 }
 
+// tagsValid reports whether every union tag inside the value is in range.
+func tagsValid(typ zed.Type, b []byte) bool {
+	if b == nil {
+		return true
+	}
+	switch typ := typ.(type) {
+	case *zed.TypeNamed:
+		return tagsValid(typ.Type, b)
+	case *zed.TypeError:
+		return tagsValid(typ.Type, b)
+	case *zed.TypeRecord:
+		it := zcode.Bytes(b).Iter()
+		for _, f := range typ.Fields {
+			if it.Done() {
+				return false
+			}
+			if !tagsValid(f.Type, it.Next()) {
+				return false
+			}
+		}
+	case *zed.TypeArray:
+		for it := zcode.Bytes(b).Iter(); !it.Done(); {
+			if !tagsValid(typ.Type, it.Next()) {
+				return false
+			}
+		}
+	case *zed.TypeSet:
+		for it := zcode.Bytes(b).Iter(); !it.Done(); {
+			if !tagsValid(typ.Type, it.Next()) {
+				return false
+			}
+		}
+	case *zed.TypeMap:
+		for it := zcode.Bytes(b).Iter(); !it.Done(); {
+			if !tagsValid(typ.KeyType, it.Next()) || it.Done() || !tagsValid(typ.ValType, it.Next()) {
+				return false
+			}
+		}
+	case *zed.TypeUnion:
+		it := zcode.Bytes(b).Iter()
+		tag := int(zed.DecodeInt(it.Next()))
+		if tag < 0 || tag >= len(typ.Types) || it.Done() {
+			return false
+		}
+		return tagsValid(typ.Types[tag], it.Next())
+	}
+	return true
+}
+
 // mixedWithComplex: >= 2 distinct types, at least one of them not primitive.
 func mixedWithComplex(vals []zed.Value) bool {
 	types := map[zed.Type]bool{}
@@ -1309,6 +1366,29 @@ func runGBCase(c GBCase) *vt.Outcome {
 				return o
 			}
 			partials = append(partials, out...)
+		}
+		malformed := false
+		for _, v := range partials {
+			if !tagsValid(v.Type(), v.Bytes()) {
+				malformed = true
+			}
+		}
+		if malformed {
+			// A partials-out stage that spilled emitted a collect/union partial with an invalid union tag
+			// (known finding C10-spill-foreign-context); feeding it to the partials-in stage panics in the
+			// operator goroutine, so the stage is not run.
+			hasCU := false
+			for _, a := range c.Aggs {
+				if a.Func == "collect" || a.Func == "union" {
+					hasCU = true
+				}
+			}
+			if hasCU && c.ShardLimit < m.nFine && vt.IsKnown(sigForeignCtx) {
+				o.Known = appendOnce(o.Known, sigForeignCtx)
+				return o
+			}
+			o.Fail = vt.Failf(sigForeignCtx, "%s: a partials-out stage emitted a malformed value (invalid union tag)", name)
+			return o
 		}
 		var out []zed.Value
 		var err error
